@@ -6,7 +6,7 @@ CONSTANTS
   MaxRuns = 3
   MaxClr = 2
   Dev = {}
-  Slows = {0}
+  Slows = {0, 2, 6}
   Export = TRUE
 INIT Init
 NEXT Next
